@@ -219,7 +219,8 @@ fn validate_use_of_arguments_for_client_type<TCompilationProfile: CompilationPro
                         &mut reachable_variables,
                         field_argument_definitions,
                         variable_definitions,
-                        true,
+                        // object selections cannot be @loadable, so no argument can be supplied later
+                        false,
                         &object_selection.arguments,
                         object_selection.name.location,
                     );
